@@ -29,6 +29,8 @@ func (u *Unit) cutLoop(st *State, fr *Frame, b *ssa.BasicBlock, lc *LoopContract
 	phase := "establish"
 	if fr.loopSeen[b] {
 		phase = "preserve"
+	} else {
+		fr.loopSnap[b] = st.clone()
 	}
 	for _, cl := range lc.Invariants {
 		if !cl.visible(u.prop) {
